@@ -105,7 +105,11 @@ def run_case(case, ctx):
         kw = {}
         cms = []
         if case["jitter"] is not None:
-            cms.append(settings.cholesky_jitter(float_value=case["jitter"], double_value=case["jitter"]))
+            # the value for the matrix's own dtype; half of the cases give only that one (the other slots keep their defaults)
+            if case["seed"] % 2 if "seed" in case else False:
+                cms.append(settings.cholesky_jitter(**{("double_value" if dt == torch.float64 else "float_value"): case["jitter"]}))
+            else:
+                cms.append(settings.cholesky_jitter(float_value=case["jitter"], double_value=case["jitter"]))
         if case["max_tries"] is not None:
             cms.append(settings.cholesky_max_tries(case["max_tries"]))
         import contextlib
